@@ -91,6 +91,10 @@ def untyped_i32_text(ast):
         parts = [untyped_i32_text(x) for x in ast[1]]
         if not parts or any(p is None for p in parts) or (k == "tuple" and len(parts) == 1):
             return None
+        # check.rs unifies `1` and `-1` as elements of one array, but not `[1]` and `[-1]` (an unspecified
+        # unsigned vs. an unspecified signed element type): aggregates inside an array stay non-negative
+        if k == "array" and any(x[0] not in ("int", "bool") for x in ast[1]) and any("-" in p for p in parts):
+            return None
         return ("[" + ", ".join(parts) + "]") if k == "array" else ("(" + ", ".join(parts) + ")")
     if k == "repeat":
         p = untyped_i32_text(ast[1])
